@@ -732,6 +732,8 @@ class ConsumerGroup(Coordinator):
             consumer_kwargs = {}
         self.consumer_kwargs = consumer_kwargs
         self.consumers = {}
+        # stop() is shutting the consumers down before leaving the group
+        self._stop_draining = False
 
     def __repr__(self):
         return "<afkak.{} 0x{:x} for {!r} {} member_id={!r}>".format(
@@ -824,6 +826,10 @@ class ConsumerGroup(Coordinator):
         all currently-held partition consumers will commit and close
         """
         log.debug("%s on_join_prepare", self)
+        if self._stop_draining:
+            # Don't (re)join while stop() waits for the consumers of the
+            # previous generation: stop() cancels this join when it is done.
+            return Deferred()
         return self.shutdown_consumers()
 
     def on_join_complete(self, assignments):
@@ -876,6 +882,8 @@ class ConsumerGroup(Coordinator):
         This waits for any ongoing processing to complete and commits offsets.
         It may take some time.
         """
+        if self._start_d is not None and not self._stopping:
+            self._stop_draining = True
         # A rejoin can complete while we wait for the consumers to shut down,
         # starting new consumers: repeat until none are left.
         while self.consumers:
